@@ -106,6 +106,10 @@ def onRequirementCandidates (U : Universe) (sid : SoR) (r : Req) (candidates : L
       match flat.find? (fun c => valueOf s c != some false) with
       | some w => (some ((pvar, false), (w, true)), false)
       | none => (some ((pvar, false), (first, true)), true)
+  -- `requirement_to_sorted_candidates.insert` (first insert wins). The source stores the variables at the very end of the
+  -- function; nothing in between reads the map, so the model may store them before the clause is allocated - every state the
+  -- model passes through then has each requires clause's requirement in the map (invariant `XInv.reqs` of MDet/Truth.lean)
+  modify fun s => if (s.reqCands.lookup r).isSome then s else { s with reqCands := s.reqCands ++ [(r, vsVars)] }
   let id ← allocClause (.requires pvar r) watch
   emit (.cands id conflict vsVars)
   startWatching id
@@ -120,7 +124,6 @@ def onRequirementCandidates (U : Universe) (sid : SoR) (r : Req) (candidates : L
     modify fun s => { s with conflicting := s.conflicting ++ [id] }
   else if candidates.all (·.isEmpty) then
     modify fun s => { s with negAssertions := s.negAssertions ++ [(pvar, id)] }
-  modify fun s => if (s.reqCands.lookup r).isSome then s else { s with reqCands := s.reqCands ++ [(r, vsVars)] }
 
 /-- `on_constraint_candidates_available` -/
 def onConstraintCandidates (sid : SoR) (vs : Nat) (cands : List Nat) : M Unit := do
